@@ -432,9 +432,9 @@ class PropertyCheck:
             if ok:
                 self.process(self.gen_cases())
             self.extra['corpus_cases'] = ncorpus
-            self.post()
         except Timeout:
             print('TIMEOUT', self.pid)
+            self.post()
             self.finish(lean, reported)
             return 2
 
@@ -508,6 +508,10 @@ class PropertyCheck:
                 print('VIOLATION property=%s replay=%s no-failing-input-found' % (self.pid, path))
                 reported.append(path)
                 exit_code = 1
+        try:
+            self.post()
+        except Exception as e:
+            print('NOTE post-processing failed: %r' % (e,))
         self.finish(lean, reported)
         return exit_code
 
